@@ -2,7 +2,7 @@
   The protocol for every machine of the engine, by induction on the nesting depth; `ed`, `coll` and `ms` machines
   enter through a hypothesis (`AtomHyp`), see Props/C04.lean for what is proved about them.
 -/
-import GtModel.Proofs.LazyColl
+import GtModel.Proofs.LazyEdF
 
 namespace GtModel.Lazy
 
@@ -161,6 +161,106 @@ theorem coll_keeps {l : Lbl} {s s' : CollSt} {p p' q q' : List M}
 
 end CollG
 
+/-! ### the EditDistance's generic ghost (LazyEd*) instantiated at `G` -/
+
+theorem height_ed {l : Lbl} {s : EdSt} {cells : List (List M)} {n : Nat} :
+    height (.ed l s cells) ≤ n + 1 ↔ heightLL cells ≤ n := by
+  simp only [height]; omega
+
+theorem finM_congr {g g' : Ghost} (hf : g.fin = g'.fin) (t : List (List M)) : finM g t = finM g' t := by
+  simp [finM, hf]
+
+theorem DefOn_congr {g g' : Ghost} (hv : g.view = g'.view) {cells : List (List M)} {D : Nat → Nat → Prop}
+    (d : DefOn g cells D) : DefOn g' cells D := by
+  intro r c m hr hc hd hm
+  rw [← hv]; exact d r c m hr hc hd hm
+
+/-- the invariant only looks at the cells' intervals and final costs (and their own invariants) -/
+theorem EdInv.congr {g g' : Ghost} (hv : g.view = g'.view) (hf : g.fin = g'.fin) {s : EdSt}
+    {cells : List (List M)} (inv : EdInv g s cells) (hI : ∀ row ∈ cells, ∀ m ∈ row, g'.I m) : EdInv g' s cells := by
+  have hfm := finM_congr hf cells
+  exact ⟨inv.nz, inv.pos, inv.shape, hI, by rw [← hfm]; exact inv.tab, DefOn_congr hv inv.defs, inv.last, inv.jf,
+    inv.jc, by rw [← hfm]; exact inv.cv, by rw [← hfm]; exact inv.stat⟩
+
+theorem edPathScripts_core {s s' : EdSt} (c : SameCore s s') (scr : List (List DScript)) :
+    ∀ (tr : List (EditMatrix.Move × Nat × Nat)), edPathScripts s' scr tr = edPathScripts s scr tr
+  | [] => rfl
+  | (mv, r, cc) :: rest => by
+      simp only [edPathScripts, edPathScripts_core c scr rest, c.pre, c.ins, c.rem]
+
+section EdG
+variable (a : Ghost) (F n : Nat)
+
+theorem finRow_G : ∀ (r : List M), r.map (G a F n).fin = finRow a r
+  | [] => rfl
+  | m :: ms => by simp only [List.map, finRow, G_fin, ← finRow_G ms]
+
+theorem finM_G : ∀ (cells : List (List M)), finM (G a F n) cells = finLL a cells
+  | [] => rfl
+  | r :: rs => by
+      have := finM_G rs
+      simp only [finM] at this ⊢
+      simp only [List.map, finLL, ← this, ← finRow_G a F n r]
+
+theorem muLLg_G : ∀ (cells : List (List M)), muLLg (G a F n) cells = muLL2 a cells
+  | [] => rfl
+  | r :: rs => by simp only [muLLg, muLL2, sumMu_G, muLLg_G rs]
+
+theorem scrM_G : ∀ (cells : List (List M)), scrM (G a F n) cells = scriptLL a cells
+  | [] => rfl
+  | r :: rs => by
+      have := scrM_G rs
+      simp only [scrM] at this ⊢
+      simp only [List.map, scriptLL, ← this, ← script_G a F n r]
+
+theorem invLL_G : ∀ (cells : List (List M)),
+    (∀ row ∈ cells, ∀ m ∈ row, (G a F n).I m) ↔ (invLL2 a F cells ∧ heightLL cells ≤ n)
+  | [] => by simp [invLL2, heightLL]
+  | r :: rs => by
+      have ih := invLL_G rs
+      constructor
+      · intro h
+        have h1 := (inv_G a F n r).mp (h r (by simp))
+        have h2 := ih.mp (fun row hrow => h row (by simp [hrow]))
+        exact ⟨⟨h1.1, h2.1⟩, Nat.max_le.mpr ⟨h1.2, h2.2⟩⟩
+      · rintro ⟨⟨h1, h2⟩, hh⟩ row hrow
+        have hm := Nat.max_le.mp hh
+        rcases List.mem_cons.mp hrow with rfl | hrow
+        · exact (inv_G a F n row).mpr ⟨h1, hm.1⟩
+        · exact ih.mpr ⟨h2, hm.2⟩ row hrow
+
+theorem ed_I (l : Lbl) (s : EdSt) (cells : List (List M)) :
+    (G a F (n + 1)).I (.ed l s cells) ↔ (EdInv (G a F n) s cells ∧ edMu0 s + muLLg (G a F n) cells < F) := by
+  rw [muLLg_G]
+  constructor
+  · rintro ⟨⟨hmu, hI, inv⟩, hh⟩
+    exact ⟨EdInv.congr (g := ghostOf a) (g' := G a F n) rfl rfl inv ((invLL_G a F n cells).mpr ⟨hI, height_ed.mp hh⟩), hmu⟩
+  · rintro ⟨inv, hmu⟩
+    obtain ⟨hI, hh⟩ := (invLL_G a F n cells).mp inv.cellsI
+    exact ⟨⟨hmu, hI, EdInv.congr (g := G a F n) (g' := ghostOf a) rfl rfl inv (fun _ _ _ _ => trivial)⟩, height_ed.mpr hh⟩
+
+/-- an `EdKeeps` step of the generic EditDistance is a `Keeps` step of the machine -/
+theorem ed_keeps {l : Lbl} {s s' : EdSt} {cells cells' : List (List M)}
+    (hI : (G a F (n + 1)).I (.ed l s cells)) (ek : EdKeeps (G a F n) s cells s' cells') :
+    Keeps (G a F (n + 1)) (.ed l s cells) (.ed l s' cells') := by
+  obtain ⟨inv, hmu⟩ := (ed_I a F n l s cells).mp hI
+  have hmu' := ek.mu0
+  have hfm : finLL a cells' = finLL a cells := by rw [← finM_G a F n, ← finM_G a F n]; exact ek.kl.finM
+  have hscr : scriptLL a cells' = scriptLL a cells := by rw [← scrM_G a F n, ← scrM_G a F n]; exact ek.kl.scripts
+  have hfin : edFinOf s' (finLL a cells') = edFinOf s (finLL a cells) := by rw [hfm, edFin_core ek.core]
+  have hsub := ek.sub
+  rw [finM_G] at hsub
+  have c := ek.core
+  refine ⟨(ed_I a F n l s' cells').mpr ⟨ek.inv, by omega⟩, ?_, ?_, ?_, ?_⟩
+  · simp only [G_fin, finG, hfin]
+  · simp only [G_view, viewG, hfm]; exact hsub
+  · rw [muLLg_G, muLLg_G] at hmu'
+    simp only [G_mu, muG]; exact hmu'
+  · simp only [G_script, scriptG, hfm, hscr, c.pre, c.suf, c.flen, c.tlen, c.nt, c.nf,
+      edPathScripts_core c, ptrace_congr (c.edT (finLL a cells)), edFin_core c]
+
+end EdG
+
 /-- the ghost `g` restricted to atoms (`ed`, `coll`, `ms` machines) -/
 def atomsOf (g : Ghost) : Ghost := { g with I := fun m => g.I m ∧ isAtom m = true }
 
@@ -196,7 +296,11 @@ theorem engine_step (q : Bool) (F : Nat) (hF : 0 < F) (a : Ghost) (hA : AtomHyp 
       have := sum_wf P subs hs
       rw [sumLo_G, sumFin_G, sumHi_G] at this
       simp only [G_view, G_fin, viewG, finG]; omega
-    | .ed l s c, hm => exact PA.wf _ ⟨hm, rfl⟩
+    | .ed l s c, hm =>
+      obtain ⟨inv, _⟩ := (ed_I a F n l s c).mp hm
+      have := edView_wf inv
+      rw [finM_G] at this
+      simp only [G_view, G_fin, viewG, finG]; exact this
     | .coll l s p r, hm =>
       obtain ⟨inv, _⟩ := (coll_I a F n l s p r).mp hm
       have := collView_wf P inv
@@ -252,8 +356,15 @@ theorem engine_step (q : Bool) (F : Nat) (hF : 0 < F) (a : Ghost) (hA : AtomHyp 
       · simp only [G_mu, muG, elo, ehi]; omega
       · simp only [G_script, scriptG, hfin, hscr]
     | .ed l s c, hm =>
-      obtain ⟨m', e, p, qq⟩ := PA.bounds _ ⟨hm, rfl⟩
-      exact ⟨m', e, ⟨p.inv.1, p.view, p.fin, p.mu, p.scr⟩, qq⟩
+      obtain ⟨inv, hmu⟩ := (ed_I a F n l s c).mp hm
+      obtain ⟨s', c', e, ek, hv, _, hq, _, _⟩ := edBounds_keeps P F inv (by omega)
+      have kp := ed_keeps a F n hm ek
+      have hfm : finLL a c' = finLL a c := by rw [← finM_G a F n, ← finM_G a F n]; exact ek.kl.finM
+      rw [finM_G] at e hv
+      refine ⟨.ed l s' c', ?_, ⟨kp.inv, ?_, kp.fin, kp.mu, kp.scr⟩, hq⟩
+      · show boundsB (mkOps q F n) F (.ed l s c) = _
+        simp [boundsB, e, bind, Except.bind, pure, Except.pure, viewG]
+      · simp only [G_view, viewG, hfm, hv]
     | .coll l s p r, hm =>
       obtain ⟨inv, _⟩ := (coll_I a F n l s p r).mp hm
       obtain ⟨s', q', e, ck, hv, _, _, _⟩ := collBounds_keeps P l s p r inv
@@ -339,8 +450,20 @@ theorem engine_step (q : Bool) (F : Nat) (hF : 0 < F) (a : Ghost) (hA : AtomHyp 
       · intro _ hr; have := hstrict hr
         simp only [G_view, viewG, ne_eq, Iv.mk.injEq]; omega
     | .ed l s c, hm =>
-      obtain ⟨m', r, e, st⟩ := PA.tighten _ ⟨hm, rfl⟩
-      exact ⟨m', r, e, ⟨st.inv.1, st.fin, st.sub, st.mu, st.dec, st.stop, st.strict, st.scr⟩⟩
+      obtain ⟨inv, hmu⟩ := (ed_I a F n l s c).mp hm
+      obtain ⟨s', c', r, e, ek, hdec, hstop, hstrict, _⟩ := edTighten_ok P q F inv hmu
+      have kp := ed_keeps a F n hm ek
+      have hfm : finLL a c' = finLL a c := by rw [← finM_G a F n, ← finM_G a F n]; exact ek.kl.finM
+      rw [finM_G] at hstop hstrict
+      rw [muLLg_G, muLLg_G] at hdec
+      refine ⟨.ed l s' c', r, ?_, ⟨kp.inv, kp.fin, kp.sub, kp.mu, ?_, ?_, ?_, kp.scr⟩⟩
+      · show tightenB (mkOps q F n) q F (.ed l s c) = _
+        simp [tightenB, e, bind, Except.bind, pure, Except.pure]
+      · intro hr; simp only [G_mu, muG]; exact hdec hr
+      · intro hr; simp only [G_view, viewG, hfm]; exact hstop hr
+      · intro hq hr
+        simp only [G_view, viewG, hfm]
+        exact hstrict hq hr
     | .coll l s p r, hm =>
       obtain ⟨inv, hmu⟩ := (coll_I a F n l s p r).mp hm
       obtain ⟨s', p', q', rr, e, ck, c1, c2⟩ := collTighten_ok P l F s p r inv hmu
@@ -411,9 +534,7 @@ theorem engine_step (q : Bool) (F : Nat) (hF : 0 < F) (a : Ghost) (hA : AtomHyp 
       · simp only [G_mu, muG, elo, ehi]; omega
       · intro hq
         exact (set_G a F n ms').mp (qs ((set_G a F n subs).mpr hq))
-    | .ed l s c, hm =>
-      obtain ⟨m', c', e, p, qq⟩ := PA.complete _ ⟨hm, rfl⟩
-      exact ⟨m', c', e, ⟨p.inv.1, p.view, p.fin, p.mu, p.scr⟩, qq⟩
+    | .ed l s c, hm => exact ⟨.ed l s c, edComplete s, rfl, Pres.refl _ _ hm, id⟩
     | .coll l s p r, hm =>
       obtain ⟨inv, _⟩ := (coll_I a F n l s p r).mp hm
       obtain ⟨s', q', e, ck, hv, _, _, _⟩ := collBounds_keeps P l s p r inv
@@ -462,8 +583,18 @@ theorem engine_step (q : Bool) (F : Nat) (hF : 0 < F) (a : Ghost) (hA : AtomHyp 
       · simp only [G_mu, muG]; omega
       · simp only [G_script, scriptG, hfin, hscr]
     | .ed l s c, hm =>
-      obtain ⟨m', e, p⟩ := PA.onDiff _ ⟨hm, rfl⟩
-      exact ⟨m', e, ⟨p.inv.1, p.fin, p.sub, p.mu, p.scr⟩⟩
+      obtain ⟨inv, hmu⟩ := (ed_I a F n l s c).mp hm
+      obtain ⟨s1, c1, e1, ek1, hsome⟩ := edEnsure_ok P q F inv hmu
+      obtain ⟨tr, htr⟩ := Option.isSome_iff_exists.mp hsome
+      have hcv := ek1.inv.cv tr htr
+      have hval : TrValid s1 tr.reverse := by
+        intro x hx
+        rw [hcv] at hx
+        exact ptrace_valid s1 _ _ _ _ (Nat.le_refl _) (Nat.le_refl _) x (List.mem_reverse.mp hx)
+      obtain ⟨c2, e2, K2⟩ := onPath_ok P s1 tr.reverse c1 ek1.inv.cellsI ek1.inv.shape hval
+      refine ⟨.ed l s1 c2, ?_, ed_keeps a F n hm (ek1.trans (EdKeeps.ofCells P ek1.inv K2))⟩
+      show onDiffB (mkOps q F n) q F (.ed l s c) = _
+      simp [onDiffB, e1, htr, e2, bind, Except.bind, pure, Except.pure]
     | .coll l s p r, hm =>
       obtain ⟨inv, _⟩ := (coll_I a F n l s p r).mp hm
       obtain ⟨ck1, _⟩ := collExpandAll_ok P s p r inv
@@ -560,9 +691,39 @@ theorem engine_step (q : Bool) (F : Nat) (hF : 0 < F) (a : Ghost) (hA : AtomHyp 
       · simp only [G_view, viewG, elo, ehi]; omega
       · simp only [G_mu, muG, elo, ehi]; omega
       · simp only [G_script, scriptG, hfin, hscr]
-    | .ed l s c, hm, hd =>
-      obtain ⟨m', e, p⟩ := PA.dump _ ⟨hm, rfl⟩ hd
-      exact ⟨m', e, ⟨p.inv.1, p.fin, p.sub, p.mu, p.scr⟩⟩
+    | .ed l s c, hm, _ =>
+      obtain ⟨inv, hmu⟩ := (ed_I a F n l s c).mp hm
+      obtain ⟨s1, c1, e1, ek1, hsome⟩ := edEnsure_ok P q F inv hmu
+      obtain ⟨tr, htr⟩ := Option.isSome_iff_exists.mp hsome
+      have inv1 := ek1.inv
+      have hcv := inv1.cv tr htr
+      have hval : TrValid s1 tr.reverse := by
+        intro x hx
+        rw [hcv] at hx
+        exact ptrace_valid s1 _ _ _ _ (Nat.le_refl _) (Nat.le_refl _) x (List.mem_reverse.mp hx)
+      have hpc := inv1.jc hsome
+      have hall : DefAll (G a F n) s1 c1 := by
+        intro r cc m hr hc hd hm'
+        have hk := inv1.k_le hpc.1
+        exact inv1.defs r cc m hr hc ⟨hd.1, hd.2, hpc.1, by omega, Or.inr hsome⟩ hm'
+      obtain ⟨c2, e2, K2⟩ := dumpPath_ok P s1 tr.reverse c1 inv1.cellsI inv1.shape hval hall
+      have ek2 := ek1.trans (EdKeeps.ofCells P inv1 K2)
+      have hmu2 : muLLg (G a F n) c2 < F := by have := ek2.mu0; omega
+      obtain ⟨s3, c3, e3, ek3, _, _, _, _, _⟩ := edBounds_keeps P F ek2.inv hmu2
+      have kp := ed_keeps a F n hm (ek2.trans ek3)
+      have hc1 : edComplete s1 = true := inv1.complete_iff.mpr hpc
+      have core := ek1.core
+      have hfm1 : finLL a c1 = finLL a c := by rw [← finM_G a F n, ← finM_G a F n]; exact ek1.kl.finM
+      have hfm2 : finM (G a F n) c2 = finLL a c := by rw [K2.finM, finM_G, hfm1]
+      have hscr1 : scrM (G a F n) c1 = scriptLL a c := by
+        rw [← scrM_G a F n c]; exact ek1.kl.scripts
+      refine ⟨.ed l s3 c3, ?_, kp⟩
+      show dumpB (fun x => boundsB (mkOps q F n) F x) (mkOps q F n) q F (.ed l s c) = _
+      have eb : boundsB (mkOps q F n) F (.ed l s1 c2) = .ok (.ed l s3 c3, edViewOf s1 (finM (G a F n) c2)) := by
+        simp [boundsB, e3, bind, Except.bind, pure, Except.pure]
+      simp only [dumpB, e1, htr, Option.getD_some, e2, bind, Except.bind, eb, pure, Except.pure, G_script, scriptG]
+      rw [edView_complete _ hc1, hfm2, edFin_core core, hcv, finM_G, hfm1, hscr1, edPathScripts_core core,
+        ptrace_congr (core.edT (finLL a c)), core.pre, core.suf, core.flen, core.tlen, core.nt, core.nf]
     | .coll l s p r, hm, hd =>
       obtain ⟨inv, _⟩ := (coll_I a F n l s p r).mp hm
       obtain ⟨ck1, hd1⟩ := collExpandAll_ok P s p r inv
